@@ -747,6 +747,78 @@ func (c *c15) solverModel() {
 		r.Check(okH && okR && h == rs, label+"."+f, p.Pos(rd.Pos()), fmt.Sprintf("%s -> holder.%s -> %s", f, h, f),
 			fmt.Sprintf("solver field %s is saved in holder field %q but restored from %q", f, h, rs))
 	}
+	// a restored list reaches the constructor as decoded: nothing sorts, appends to or otherwise rewrites it in between
+	var dataAlloc ssa.Value
+	Instrs(rd, func(_ *ssa.BasicBlock, _ int, in ssa.Instruction) {
+		if ci, ok := in.(ssa.CallInstruction); ok {
+			if n, _ := calleeName(ci.Common()); n == "json.Decoder.Decode" {
+				dataAlloc = stripPtr(ci.Common().Args[1])
+			}
+		}
+	})
+	if dataAlloc != nil {
+		Instrs(rd, func(_ *ssa.BasicBlock, _ int, in ssa.Instruction) {
+			u, ok := in.(*ssa.UnOp)
+			if !ok || u.Op != token.MUL {
+				return
+			}
+			fa, ok := u.X.(*ssa.FieldAddr)
+			if !ok || fa.X != dataAlloc {
+				return
+			}
+			if _, isSlice := u.Type().Underlying().(*types.Slice); !isSlice {
+				return
+			}
+			fname := fieldOf(fa.X.Type(), fa.Field).Name()
+			var follow func(v ssa.Value, depth int)
+			follow = func(v ssa.Value, depth int) {
+				if depth > 4 || v.Referrers() == nil {
+					return
+				}
+				for _, ref := range *v.Referrers() {
+					switch x := ref.(type) {
+					case ssa.CallInstruction:
+						cal := x.Common().StaticCallee()
+						if cal == ctor {
+							continue
+						}
+						if b, isB := x.Common().Value.(*ssa.Builtin); isB && (b.Name() == "len" || b.Name() == "cap") {
+							continue
+						}
+						n, _ := calleeName(x.Common())
+						r.Bad(label+".untouched:"+fname, p.Pos(x.Pos()), "the decoded list "+fname+" is handed to "+n+" before the solver is built: the restored solver does not see the list in the saved order/content (summation order changes the outputs)")
+					case *ssa.MakeInterface:
+						follow(x, depth+1)
+					case *ssa.Phi:
+						follow(x, depth+1)
+					case *ssa.Slice:
+						follow(x, depth+1)
+					case *ssa.Store:
+						if x.Val == v {
+							if al, isAlloc := x.Addr.(*ssa.Alloc); !isAlloc {
+								r.Bad(label+".untouched:"+fname, p.Pos(x.Pos()), "the decoded list "+fname+" is stored elsewhere before the solver is built")
+							} else {
+								// a local variable (possibly captured by a closure): follow what is read back from it
+								for _, ar := range *al.Referrers() {
+									if ld, isLd := ar.(*ssa.UnOp); isLd && ld.Op == token.MUL {
+										follow(ld, depth+1)
+									}
+								}
+							}
+						}
+					case *ssa.IndexAddr:
+						for _, r2 := range *x.Referrers() {
+							if st, isSt := r2.(*ssa.Store); isSt && st.Addr == ssa.Value(x) {
+								r.Bad(label+".untouched:"+fname, p.Pos(st.Pos()), "an element of the decoded list "+fname+" is overwritten before the solver is built")
+							}
+						}
+					}
+				}
+			}
+			follow(u, 0)
+		})
+		r.OK(label+".untouched", p.Pos(rd.Pos()), "decoded lists are inspected for rewriting between decoding and construction")
+	}
 	// modules: element-wise struct mapping both ways
 	c.solverModules(mk, rd, restored["modules"])
 	// derived field
